@@ -108,7 +108,7 @@ class Indentation(afmformats.AFMForceDistance):
                     fp.pop(ax)
 
         # remember preprocessing
-        self.preprocessing = preprocessing
+        self.preprocessing = copy.deepcopy(preprocessing)
         self.preprocessing_options = copy.deepcopy(options)
 
         return self._preprocessing_details
